@@ -8,7 +8,7 @@ import os
 from ..core import Ctx
 from ..match import Fact, arg, call_name, calls, fact_of, facts_at, has_fact, mentions, same_expr
 from ..match import local_defs as _match_local_defs
-from ..model import NOCONST, AnalysisError, ClassInfo, FuncInfo, chain, enclosing_function, norm, parent, strip_cast, walk_no_nested
+from ..model import NOCONST, AnalysisError, ClassInfo, FuncInfo, chain, clone, enclosing_function, enclosing_stmt, norm, parent, strip_cast, walk_no_nested
 
 
 # ------------------------------------------------------------------------------------------ definitions of locals
@@ -2519,6 +2519,9 @@ def _check_verified_site(ctx: Ctx, fi: FuncInfo, site: ast.AST, label: str, data
                   f"{label}: {what} dominated by the normal completion of `{norm(through.ucalls[0].func)}`, which returns only "
                   "after a positive _verify_signature(...) verdict on the datagram (checked there)", "", [str(f) for f in facts])
         return through
+    if vcall is None and not asserted and getattr(ctx.repo, "_c01_thin_other", {}).get(id(fi.node)):
+        raise AnalysisError(f"undecided: {fi.qualname} reads the verdict through `{ctx.repo._c01_thin_other[id(fi.node)][0]}`, a wrapper that "
+                            "hands back the result of _verify_signature on its own parameters in another form (not followed)")
     if vcall is None and not asserted:
         for hq, hw in sorted(getattr(ctx, "_c01_unpacker_why", {}).items()):
             if any(call_name(c) == hq.rsplit(".", 1)[-1] for c in calls(fi)):
@@ -5725,7 +5728,193 @@ def rule_peer_identity(ctx: Ctx) -> None:
                   "carry ANOTHER key, so a message is attributed to a key whose private half the sender does not hold")
 
 
+# ------------------------------------------------------------------------------------------ thin wrappers of _verify_signature
+def _thin_vs_wrapper(ctx: Ctx, h: FuncInfo):
+    """
+    Is helper h a thin wrapper around `_verify_signature` - one `<its first parameter>._verify_signature(<own parameter>,
+    <own parameter>)` call and nothing else that matters, its result handed back?  ->
+      ('same', call)      the result is the call's result (returned directly, or unpacked into two names returned in the same order),
+      ('swapped', call)   the two names are returned in the opposite order,
+      ('other', call)     on every return the same component is the call's verdict (the name it was unpacked into, the literal
+                          False, or the literal True where that name is known to be true) and the other components are the two
+                          names / rejecting literals (a record, a branch per verdict): behaviour-preserving, but not rewritten,
+      None                anything else (a constant verdict, a slice of the datagram, other calls: judged by the other rules).
+    """
+    node = h.node
+    if isinstance(node, ast.Lambda) or h.is_async or node.decorator_list and not all(chain(d) == "staticmethod" for d in node.decorator_list) \
+            or h.name == "_verify_signature" or len(h.params()) < 3:
+        return None
+    if any(isinstance(n, (ast.Yield, ast.YieldFrom, ast.Await, ast.Global, ast.Nonlocal, ast.Try, ast.With, ast.For, ast.While,
+                          ast.FunctionDef, ast.AsyncFunctionDef, ast.Lambda, ast.ClassDef)) for n in walk_no_nested(node) if n is not node):
+        return None
+    recv = h.params()[0]
+    vcalls = [c for c in calls(h) if isinstance(c.func, ast.Attribute) and c.func.attr == "_verify_signature"]
+    if len(vcalls) != 1:
+        return None
+    vc = vcalls[0]
+    if not (isinstance(vc.func.value, ast.Name) and vc.func.value.id == recv and _is_param_unmodified(h, recv)) or len(vc.args) + len(vc.keywords) != 2:
+        return None
+    own = []
+    for a in [*vc.args, *[k.value for k in vc.keywords]]:
+        if not (isinstance(a, ast.Name) and a.id != recv and _is_param_unmodified(h, a.id)):
+            return None
+        own.append(a.id)
+    if len(set(own)) != 2 or any(k.arg is None for k in vc.keywords):
+        return None
+    body = [st for st in node.body if not (isinstance(st, ast.Expr) and isinstance(st.value, ast.Constant))]
+    if len(body) == 1 and isinstance(body[0], ast.Return) and body[0].value is vc:
+        return "same", vc
+    if not body or not isinstance(body[0], ast.Assign) or body[0].value is not vc or len(body[0].targets) != 1:
+        return None
+    tg = body[0].targets[0]
+    if not (isinstance(tg, ast.Tuple) and len(tg.elts) == 2 and all(isinstance(x, ast.Name) for x in tg.elts)):
+        return None
+    a, b = tg.elts[0].id, tg.elts[1].id
+    if a == b or a in h.params() or b in h.params() or len(local_defs(h, a)) != 1 or len(local_defs(h, b)) != 1:
+        return None
+    vs = _vs_contract(ctx)
+    if not vs.derived or vs.fields or (vs.verdict_idx, vs.remainder_idx) != (0, 1) or vs.verdict_enc is not None:
+        return None
+    rets = [n for n in walk_no_nested(node) if isinstance(n, ast.Return)]
+    allowed_calls = {id(vc)}
+    shapes = []
+    hcfg = ctx.cfg(h)
+    if hcfg.exit in hcfg.reach(cut_nodes=[n for r in rets for n in hcfg.nodes_for(r)]):
+        return None
+    for r in rets:
+        v = strip_cast(r.value) if r.value is not None else None
+        if isinstance(v, ast.Tuple):
+            comps = list(v.elts)
+        elif isinstance(v, ast.Call) and isinstance(v.func, ast.Name) and isinstance(ctx.repo.resolve_name(h.module, v.func.id), ClassInfo) \
+                and not any(k.arg is None for k in v.keywords):
+            comps = [*v.args, *[k.value for k in v.keywords]]
+            allowed_calls.add(id(v))
+        else:
+            return None
+        row = []
+        for x in comps:
+            if isinstance(x, ast.Name) and x.id in (a, b):
+                row.append(x.id)
+            elif isinstance(x, ast.Constant) and (x.value is False or x.value is None):
+                row.append(False)
+            elif isinstance(x, ast.Constant) and x.value is True and any(
+                    f.op == "truthy" and f.pos and isinstance(f.left, ast.Name) and f.left.id == a for f in facts_at(hcfg, r)):
+                row.append(a)
+            else:
+                return None
+        shapes.append(row)
+    if any(id(c) not in allowed_calls for c in calls(h)):
+        return None
+    # only tests of the verdict name may steer the helper
+    for n in walk_no_nested(node):
+        if isinstance(n, (ast.If, ast.IfExp)) and not all(isinstance(x, (ast.Name, ast.UnaryOp, ast.Not, ast.Load)) and
+                                                          (not isinstance(x, ast.Name) or x.id == a) for x in ast.walk(n.test)):
+            return None
+        if isinstance(n, (ast.Assign, ast.AugAssign, ast.AnnAssign, ast.NamedExpr, ast.Delete)) and n is not body[0]:
+            return None
+    if len(body) == 2 and isinstance(body[1], ast.Return) and isinstance(strip_cast(body[1].value), ast.Tuple):
+        if shapes == [[a, b]]:
+            return "same", vc
+        if shapes == [[b, a]]:
+            return "swapped", vc
+    if len({len(r) for r in shapes}) != 1:
+        return None
+    for j in range(len(shapes[0])):
+        if all(r[j] in (a, False) for r in shapes) and any(r[j] == a for r in shapes) \
+                and all(x != a for r in shapes for i, x in enumerate(r) if i != j):
+            return "other", vc
+    return None
+
+
+def _rewrite_thin_vs_wrappers(ctx: Ctx) -> None:
+    """
+    `ok, rest = self._check(auth, data)` where every target of `_check` only passes its own parameters to `_verify_signature`
+    and hands the result back is `ok, rest = self._verify_signature(auth, data)`: the call is rewritten to that (in the model of
+    this run, before any control-flow graph is built), the two targets exchanged when the wrapper returns (remainder, verdict).
+    Wrappers that hand the same two values back in another form (a record, a branch per verdict) are remembered: a caller of
+    one that the rules cannot follow is undecided, never a violation.
+    """
+    if getattr(ctx.repo, "_c01_thin_done", False):
+        return
+    ctx.repo._c01_thin_done = True            # type: ignore[attr-defined]
+    thin: dict = {}
+    for h in ctx.repo.all_functions():
+        if isinstance(h.node, ast.Lambda) or not any(isinstance(n, ast.Attribute) and n.attr == "_verify_signature" for n in ast.walk(h.node)):
+            continue
+        try:
+            k = _thin_vs_wrapper(ctx, h)
+        except (AnalysisError, RecursionError):
+            k = None
+        if k is not None:
+            thin[id(h.node)] = (h, *k)
+    ctx.repo._c01_thin_other = {}             # type: ignore[attr-defined]
+    if not thin:
+        return
+    names = {t[0].name for t in thin.values()}
+    for fi in list(ctx.repo.all_functions()):
+        if isinstance(fi.node, ast.Lambda) or id(fi.node) in thin:
+            continue
+        for c in [c for c in calls(fi) if call_name(c) in names]:
+            try:
+                targets = _targets(ctx, fi, c)
+            except (AnalysisError, RecursionError):
+                continue
+            if not targets or not all(isinstance(t, FuncInfo) for t in targets):
+                continue
+            for t in targets:
+                if id(t.node) not in thin:        # the copy of a module-level function whose first parameter is spelled `self`
+                    try:
+                        k = _thin_vs_wrapper(ctx, t)
+                    except (AnalysisError, RecursionError):
+                        k = None
+                    if k is not None:
+                        thin[id(t.node)] = (t, *k)
+            if not all(id(t.node) in thin for t in targets):
+                continue
+            kinds = {thin[id(t.node)][1] for t in targets}
+            new_args = None
+            if len(kinds) == 1 and kinds <= {"same", "swapped"}:
+                for t in targets:
+                    _h, _k, vc = thin[id(t.node)]
+                    is_method = t.cls is not None and not any(chain(d) == "staticmethod" for d in t.node.decorator_list)
+                    bound = _bind_call(c, t, receiver=False) if not is_method else _bind_call(c, t, receiver=True)
+                    recv = c.func.value if is_method and isinstance(c.func, ast.Attribute) else (bound or {}).get(t.params()[0])
+                    if bound is None or not (isinstance(recv, ast.Name) and recv.id == "self"):
+                        new_args = None
+                        break
+                    pos = [bound.get(x.id) for x in vc.args]
+                    kws = [(k.arg, bound.get(k.value.id)) for k in vc.keywords]
+                    if any(x is None for x in pos) or any(v is None for _, v in kws):
+                        new_args = None
+                        break
+                    sig = ([norm(x) for x in pos], [(k, norm(v)) for k, v in kws])
+                    if new_args is not None and new_args[2] != sig:
+                        new_args = None
+                        break
+                    new_args = (pos, kws, sig)
+            st = enclosing_stmt(c)
+            swap_ok = isinstance(st, ast.Assign) and st.value is c and len(st.targets) == 1 and isinstance(st.targets[0], ast.Tuple) \
+                and len(st.targets[0].elts) == 2 and not any(isinstance(x, ast.Starred) for x in st.targets[0].elts)
+            if new_args is None or (kinds == {"swapped"} and not swap_ok):
+                ctx.repo._c01_thin_other.setdefault(id(fi.node), []).append(norm(c.func))
+                continue
+            func = ast.Attribute(value=ast.Name(id="self", ctx=ast.Load()), attr="_verify_signature", ctx=ast.Load())
+            c.func = func
+            c.args = [clone(x) for x in new_args[0]]
+            c.keywords = [ast.keyword(arg=k, value=clone(v)) for k, v in new_args[1]]
+            if kinds == {"swapped"}:
+                st.targets[0].elts.reverse()
+            for x in ast.walk(c):
+                if not hasattr(x, "lineno"):
+                    ast.copy_location(x, c)
+            for x in ast.walk(c):
+                for y in ast.iter_child_nodes(x):
+                    y._parent = x             # type: ignore[attr-defined]
+            ctx._cfgs.pop(id(fi.node), None)
+
+
 def run(ctx: Ctx) -> None:
+    _rewrite_thin_vs_wrappers(ctx)
     rule_wrappers(ctx)
     rule_peer_identity(ctx)
     rule_effects_after_verdict(ctx)
